@@ -282,20 +282,17 @@ Record wf (p : pkg) : Prop := {
   wf_names : NoDup (names (walk_pkg p));
   wf_idents : forall t, In t (walk_pkg p) -> is_ident (ts_name t) = true;
   wf_files : NoDup (map f_name (p_files p));
-  wf_visible : forall f, In f (p_files p) -> visible_file (f_name f) = true;
-  wf_alias : forall t, In t (walk_pkg p) -> ts_alias t = true -> ts_rhs t = RNamed
+  wf_visible : forall f, In f (p_files p) -> visible_file (f_name f) = true
 }.
 
 Lemma wf_pkgb_wf : forall p, wf_pkgb p = true -> wf p.
 Proof.
-  intros p H. unfold wf_pkgb in H. rewrite !andb_true_iff in H. destruct H as [[[[H1 H2] H3] H4] H5].
+  intros p H. unfold wf_pkgb in H. rewrite !andb_true_iff in H. destruct H as [[[H1 H2] H3] H4].
   constructor.
   - apply nodupb_NoDup. exact H1.
   - intros t Ht. rewrite forallb_forall in H2. apply H2. apply in_map. exact Ht.
   - apply nodupb_NoDup. exact H3.
   - intros f Hf. rewrite forallb_forall in H4. apply H4. apply in_map. exact Hf.
-  - intros t Ht Ha. rewrite forallb_forall in H5. specialize (H5 t Ht). rewrite Ha in H5. simpl in H5.
-    destruct (ts_rhs t); try discriminate. reflexivity.
 Qed.
 
 Lemma named_unique : forall p t1 t2, wf p ->
@@ -1359,3 +1356,13 @@ Proof.
   - destruct R as [R _]. exact R.
   - destruct R as [R _]. rewrite R. reflexivity.
 Qed.
+
+(* getGoFile is independent of the iteration order of TypesInfo.Defs: the file
+   holding the package-level declaration (type parameters and function-local
+   types of the same name do not count) *)
+Theorem get_go_file_decl : forall o p T, perm_oracle o -> wf_pkgb p = true -> get_go_file o p T = decl_file p T.
+Proof. intros o p T Ho Hwf. apply get_go_file_perm; [exact Ho | apply wf_pkgb_wf; exact Hwf]. Qed.
+
+Theorem decl_file_declares : forall p f t, wf_pkgb p = true -> In f (p_files p) -> In t (top_specs f) ->
+  decl_file p (ts_name t) = f_name f.
+Proof. intros p f t Hwf. apply decl_file_spec. apply wf_pkgb_wf. exact Hwf. Qed.
